@@ -261,6 +261,23 @@ def gen_complex(r, depth, customs, bare, pool=DEFAULT_POOL):
 def gen_composed(r, pool):
     """-> (selector list AST, {':--name': selector list AST}, where the prefixes live)."""
     pfxs = pool['pfx']
+    if pool.get('els') and r.random() < 0.16:
+        # a chain read off an actual ancestor path: 3-5 compounds, mostly WITHOUT a type selector — under a map with a default
+        # entry every one of them carries an implied universal that must be in the default namespace, however far left it is
+        w = r.choice(pool['els'])
+        chain = [w] + [a for a in w.parents if isinstance(a, bs4.Tag) and not isinstance(a, bs4.BeautifulSoup)][:r.choice([2, 2, 3, 4])]
+        if len(chain) >= 3:
+            cx = []
+            for x in reversed(chain):
+                t = None if r.random() < 0.75 else ('type', None, r.choice([x.name, '*']))
+                items = [gen_attr(r, None, pool, x)] if (t is None or r.random() < 0.5) else []
+                if cx:
+                    cx.append(' ' if r.random() < 0.6 else ' > ')
+                cx.append(('cp', t, items))
+            lst = [cx]
+            if r.random() < 0.3:
+                lst.insert(r.choice([0, 1]), gen_complex(r, 0, [], True, pool))
+            return lst, {}, 'ns-chain'
     where = r.choice(['custom-only', 'custom-only', 'pattern-only', 'both', 'both', 'no-custom', 'no-custom'])
     customs = {}
     if where != 'no-custom':
@@ -526,7 +543,7 @@ def make_cases_factory(state):
                     nsmap[p] = '' if rng.random() < 0.18 else rng.choice(uris)
                 empties = [k for k, v in nsmap.items() if k and v == '']
                 state['maps_with_prefix_mapped_to_empty'] += bool(empties)
-                if rng.random() < 0.25:
+                if rng.random() < (0.4 if composed else 0.25):
                     nsmap[''] = rng.choice(uris[:3] + uris[4:])
                 custom = {}
                 if composed:
